@@ -129,6 +129,20 @@ def run_c09(ctx: Ctx):
 REGISTRY["C09"] = run_c09
 
 
+def run_c08(ctx: Ctx):
+    ctx.trusted_base = BASE_TRUST + ["Model/Tags.v is a hand-written model of EnvSpec._evaluate_python (string slicing, split/replace/lower, startswith/endswith) on top of the "
+                                     "GENERATED `&` and is_empty; the tie is the S-tags stream over the tag universe x requires_python x implementation settings",
+                                     "the three specifier shapes the code parses (>=X.Y, ==X.Y.*, ==X.*) are taken as their ranges; S-tags compares end-to-end results, so a parser change that alters them is seen as a disagreement"]
+    props_spec.proof_step(ctx, "Props/C08.v", ["C08", "tail_spec", "inter_nonempty"], extra_targets=["Model/CorrTags.v"])
+    if not any(b["kind"] == "translation" for b in ctx.broken):
+        pt.stream_stags(ctx)
+    pt.oracle_c08(ctx)
+    ctx.coverage["rule"] = "python/abi tag universe (majors 2-3; minors 0-20 thorough / 8-10 minors quick; every implementation/gil setting; PEP 3149/703 ABI spellings incl. digit-extended ones) x requires_python grid"
+
+
+REGISTRY["C08"] = run_c08
+
+
 def with_algebra_cone(inner, pid):
     """C04/C06/C17 theorems are stated over the regenerated specifier algebra: re-check that cone and the
     translator's validation stream as part of the property"""
